@@ -185,3 +185,23 @@ func init() {
 		}
 	})
 }
+
+// time.Parse / Time.Unix: the instant is an uninterpreted function of the text.
+func init() {
+	extraStubs = append(extraStubs, func(e *Engine) {
+		e.Stubs["time.Parse"] = func(in *Interp, fn *ssa.Function, args []Value) (Value, bool) {
+			s := args[1].(*Term)
+			ok := in.noteUF(in.tb.UF("time.parse.ok", SortBool, s))
+			tt := fn.Signature.Results().At(0).Type()
+			z := in.zero(tt).(Struct)
+			if !in.Branch(ok) {
+				return Tuple{z, in.NewError(in.tb.Str("parsing time: cannot parse"))}, true
+			}
+			z[1] = in.noteUF(in.tb.UF("time.parse.unix", BVSort(64), s)) // ext carries the unix seconds
+			return Tuple{z, Iface{}}, true
+		}
+		e.Stubs["(time.Time).Unix"] = func(in *Interp, fn *ssa.Function, args []Value) (Value, bool) {
+			return args[0].(Struct)[1], true
+		}
+	})
+}
